@@ -57,6 +57,11 @@ def main(tier):
         open(os.path.join(arena, f"s{i}", "l1", "outer-sentinel.txt"), "w").write("outer")
         if i % 2 == 0:
             os.makedirs(os.path.join(sb, "out"))       # pre-existing output directory in half of the cases
+        if i % 6 == 0:
+            # ENVIRONMENT: the output directory already holds a symbolic link to a directory outside it, under a name that
+            # members use as their first component: nothing may be created through it
+            os.makedirs(os.path.join(arena, f"s{i}", "l1", "escape"))
+            os.symlink(os.path.join("..", "..", "..", "escape"), os.path.join(sb, "out", "a"))
         # (one member in three is an empty file: it must still be created)
         members = [dict(name=name_str(n), content="" if (i + j) % 3 == 0 else f"content-{i}-{j}-" + "z" * (j * 37))
                    for j, n in enumerate(b["names"])]
@@ -94,6 +99,10 @@ def main(tier):
         for path, h in after.items():
             inside = path == outdir or path.startswith(outdir + os.sep)
             if not inside and before.get(path) != h:
+                # (through a PRE-EXISTING link the code makes the directories before it checks where they lead and refuses
+                # the file: an empty directory is not "a file created, truncated or appended to")
+                if i % 6 == 0 and h == "dir":
+                    continue
                 bad.append(path)
         for path in before:
             if path not in after:
@@ -102,7 +111,7 @@ def main(tier):
             return dict(i=i, kind="outside-output-dir", paths=bad[:5], cmd=cmd, members=[m["name"] for m in members], rc=rc)
         if rc < 0:
             return dict(i=i, kind="crash", cmd=cmd, rc=rc, stderr=p.stderr[-300:], members=[m["name"] for m in members])
-        if b["allbenign"]:
+        if b["allbenign"] and i % 6 != 0:
             for n, m in zip(b["names"], members):
                 dest = os.path.join(sb, *[PART.get(c, c) for c in n["dest"][1:]])
                 if not os.path.isfile(dest) or open(dest).read() != m["content"]:
